@@ -200,10 +200,38 @@ func refMaxRelays(s *chain.Snapshot, stake *big.Int) (*big.Int, bool) {
 	return n, true
 }
 
+// refMaxRelaysWithParticipation: participation rate on. The code computes (application pool + node pool) / supply in
+// 18-digit fixed point at the moment the stake has been moved into the pool (= the observed post-state), multiplies by
+// base/100 * stake/1e6, adds the adjustment and truncates. The reference is the exact rational value; the 18-digit
+// roundings move the result by far less than one, so the observed integer must lie within one of its floor.
+func refMaxRelaysWithParticipation(pre, post *chain.Snapshot, stake *big.Int) (lo, hi *big.Int, ok bool) {
+	base, ok1 := monitor.ParamInt(pre, "application/BaseRelaysPerPOKT")
+	adj, ok2 := monitor.ParamInt(pre, "application/StabilityAdjustment")
+	if !ok1 || !ok2 || pre.Params["application/ParticipationRateOn"] != "true" {
+		return nil, nil, false
+	}
+	supply := monitor.SupplyOf(post)
+	if supply.Sign() <= 0 {
+		return nil, nil, false
+	}
+	staked := new(big.Int).Add(monitor.Bal(post, monitor.ModuleAddr(post, monitor.AppPool)), monitor.Bal(post, monitor.ModuleAddr(post, monitor.NodePool)))
+	num := new(big.Int).Mul(staked, big.NewInt(base))
+	num.Mul(num, stake)
+	den := new(big.Int).Mul(supply, big.NewInt(100_000_000))
+	fl := new(big.Int).Quo(num, den)
+	fl.Add(fl, big.NewInt(adj))
+	max := new(big.Int).SetUint64(^uint64(0))
+	lo, hi = new(big.Int).Sub(fl, big.NewInt(1)), new(big.Int).Add(fl, big.NewInt(1))
+	if fl.Cmp(max) >= 0 {
+		return max, max, true
+	}
+	return lo, hi, true
+}
+
 func checkC28(r *ev.Run) {
 	nScripts := r.N(16, 250)
 	perScript := r.N(90, 160)
-	r.Rule(mxRule + "Focus: application stake / edit / begin-unstake / transfer with MaxApplications = 7 against 4 genesis apps and 6 funded candidates (so the limit is hit), stakes 1-31 POKT around the 1 POKT minimum, 1-2 chains, candidates holding 40 POKT (so large stakes cannot be covered), transfers to fresh keys by current applications and by non-applications, MaxApplications changed by governance. Oracle per DeliverTx: an application that becomes staked must have had, in the observed pre-state: stake >= minimum, chains <= maximum, balance >= stake + fee, staked-application count < MaxApplications; its record must be Staked with tokens == stake and MaxRelays == floor(BaseRelaysPerPOKT/100 * stake/1e6 + StabilityAdjustment) computed from the stored params; an accepted transfer must come from a staked application, create the new record with the same tokens / chains / MaxRelays / status, delete the old record and leave the application pool unchanged. Non-trivial = distinct (kind, relation, outcome, limit reached?).")
+	r.Rule(mxRule + "Focus: application stake / edit / begin-unstake / transfer with MaxApplications = 7 against 4 genesis apps and 6 funded candidates (so the limit is hit), stakes 1-31 POKT around the 1 POKT minimum, 1-2 chains, candidates holding 40 POKT (so large stakes cannot be covered), transfers to fresh keys by current applications and by non-applications, MaxApplications changed by governance. Oracle per DeliverTx: an application that becomes staked must have had, in the observed pre-state: stake >= minimum, chains <= maximum, balance >= stake + fee, staked-application count < MaxApplications; its record must be Staked with tokens == stake and MaxRelays == floor(BaseRelaysPerPOKT/100 * stake/1e6 + StabilityAdjustment) computed from the stored params (in half of the scripts the participation rate is on: the allowance is then additionally scaled by (application pool + node pool) / supply, judged against the exact rational value over the observed balances, +-1); an accepted transfer must come from a staked application, create the new record with the same tokens / chains / MaxRelays / status, delete the old record and leave the application pool unchanged. Non-trivial = distinct (kind, relation, outcome, limit reached?).")
 	ev.ForEach(nScripts, workers(), func(si int) {
 		if r.Only != "" && r.Only != "*" && r.Only != fmt.Sprint(si) {
 			return
@@ -212,6 +240,10 @@ func checkC28(r *ev.Run) {
 		p, _ := buildMxPlanFocus(rr, perScript, 5, 3, "apps", nil)
 		if si%2 == 1 {
 			p.B.Gen.AppMaxChains = 1 // every two-chain request (first stake or edit) is over the limit
+		}
+		if si%4 >= 2 {
+			p.B.Gen.AppParticipationRateOn = true // allowances scale with the share of the supply that is staked
+			p.B.Gen.AppBaseRelaysPerPOKT = 1_000_000_000 + int64(si) // large enough for that share (a few percent here) to show in the integer result
 		}
 		res, err := p.run(r, si)
 		if err != nil || res.TimedOut {
@@ -344,6 +376,13 @@ func judgeApp(r *ev.Run, si int, c *txCase) {
 	}
 	if ref, ok := refMaxRelays(c.Pre, val); ok && Q.MaxRelays != ref.String() {
 		r.Violation("stake/wrong-max-relays", desc+fmt.Sprintf(" — record MaxRelays %s, reference from stored params %s", Q.MaxRelays, ref), w())
+	}
+	if lo, hi, ok := refMaxRelaysWithParticipation(c.Pre, c.Post, val); ok {
+		r.Count("allowances_judged_with_participation_rate_on", 1)
+		got, _ := new(big.Int).SetString(Q.MaxRelays, 10)
+		if got == nil || got.Cmp(lo) < 0 || got.Cmp(hi) > 0 {
+			r.Violation("stake/wrong-max-relays/participation-rate-on", desc+fmt.Sprintf(" — record MaxRelays %s; with the participation rate on the reference (staked tokens of applications and nodes over the supply, from the observed balances) is within [%s, %s]", Q.MaxRelays, lo, hi), w())
+		}
 	}
 	if v := d[pool]; v == nil || v.Cmp(val) != 0 {
 		r.Violation("stake/pool-delta", desc+fmt.Sprintf(" — application pool changed by %v, staked value %s", v, val), w())
